@@ -1,6 +1,7 @@
 /- line-protocol handler for model "gw" (C11, backend pool); same line format and
    canonical output as harness/inproc/h_gw.c -/
 import LtVerif.Model.Gw
+import LtVerif.Model.GwStat
 namespace Driver
 open LtVerif LtVerif.Gw
 
@@ -95,7 +96,23 @@ def gwRunOps (w : World) (toks : List String) : World × List String :=
       let evs := (w'.log.take (w'.log.length - n)).reverse
       (w', (String.join (evs.map gwEv) ++ "#" ++ gwDump w') :: acc.2)) (w, [])
 
+/-- `gwk <id hex> <proc: - | n> <tag hex>  <id hex> <proc> <tag hex>`: the two keys
+    gw_status_get_counter() builds (case-folded, as array_get_int_ptr compares them) and whether they name one
+    plugin_stats entry -/
+def gwKeyArg (id pr tag : String) : Option Bytes := do
+  let i ← B.ofHex id
+  let t ← B.ofHex tag
+  let p ← if pr = "-" then some none else (do let n ← pr.toNat?; if n < 4294967296 then some (some n) else none)
+  some (GwStat.statKey i p t)
+
+def gwKeyOut (b : Bytes) : String := if b.isEmpty then "-" else B.toHex b
+
 def gwLine : List String → String
+  | ["gwk", i1, p1, t1, i2, p2, t2] =>
+    match gwKeyArg i1 p1 t1, gwKeyArg i2 p2 t2 with
+    | some a, some b =>
+      s!"{gwKeyOut (GwStat.lower a)} {gwKeyOut (GwStat.lower b)} {if GwStat.sameEntry a b then 1 else 0}"
+    | _, _ => "bad-op"
   | "gw" :: bal :: wkr :: ns :: hosts :: ops =>
     match bal.toNat?, wkr.toNat?, ns.toNat?, ((hosts.splitOn "/").filter (· ≠ "")).mapM gwSpec with
     | some b, some k, some n, some specs =>
